@@ -104,7 +104,9 @@ def check(chk: Check) -> None:
     # thresholds written in the source (prefetch depths, batch and chunk sizes) scaled below the number of frames
     from .. import tunables
 
-    jobs += [dict(jb, tunable_scale=tunables.SCALE) for jb in jobs if jb["complete"] in (2, 4) and jb["physical"] in (1, 3)]
+    # (not armed on the parse side: a truncated stream makes the unscaled twin raise as well, so a format bound written
+    # as a literal — `_VARINT_MAX_BITS = 64` in benign patch B3-refactor3 — cannot be told from a threshold here)
+    _ = tunables
     for res in pmap(run, jobs):
         if res is None:
             continue
